@@ -30,7 +30,7 @@ Print Assumptions C17hs13_schedule_bounds.
 
 (* dual-stack client: while the version is negotiated (before the state machine exists) the
    ClientHello is repeated on the same schedule, and a datagram that does not complete the server's
-   first message only restarts the timeout *)
+   first message changes nothing (the repeat deadline belongs to the transmission) *)
 Theorem C17hs13_negotiation_interval_law :
   forall (c : cfg) (e : ep) (k : nat),
     negotiating e = true ->
@@ -56,10 +56,22 @@ Theorem C17hs13_negotiation_datagram_quiet :
     let e1 := fst (fst (fst (process_records true e d))) in
     has e1 0 HT_SH 0 || has e1 0 HT_HRR 0 = false ->
     snd (ep_datagram c e d now) = [] /\ negotiating (fst (ep_datagram c e d now)) = true /\
-    e_timer (fst (ep_datagram c e d now)) = now + e_interval e /\
-    e_interval (fst (ep_datagram c e d now)) = e_interval e.
+    e_timer (fst (ep_datagram c e d now)) = e_timer e /\
+    e_interval (fst (ep_datagram c e d now)) = e_interval e /\
+    e_out (fst (ep_datagram c e d now)) = e_out e.
 Proof. exact neg_datagram_quiet. Qed.
 Print Assumptions C17hs13_negotiation_datagram_quiet.
+
+(* the timer law of the negotiating client holds whatever arrives in between: any number of
+   datagrams that do not complete the server's first message leave deadline, interval and flight
+   as they were *)
+Theorem C17hs13_negotiation_timer_unmoved :
+  forall (c : cfg) (ds : list (dgram * N)) (e : ep),
+    negotiating e = true -> all_undecided c e ds ->
+    let e' := neg_reads c e ds in
+    negotiating e' = true /\ e_timer e' = e_timer e /\ e_interval e' = e_interval e /\ e_out e' = e_out e.
+Proof. exact neg_timer_unmoved. Qed.
+Print Assumptions C17hs13_negotiation_timer_unmoved.
 
 (* one expiry: what is left of the current flight is sent again *)
 Theorem C17hs13_timer_step :
@@ -114,7 +126,7 @@ Proof. exact timer_silent_when_not_retransmitting. Qed.
 Print Assumptions C17hs13_timer_silent_when_not_retransmitting.
 
 (* after completing: the timer re-sends nothing but the not yet acknowledged NewSessionTicket (the
-   server's reliable post-handshake message, on its own doubling schedule) ... *)
+   server's reliable post-handshake message, on its own schedule under the same interval rule) ... *)
 Theorem C17hs13_finished_timer :
   forall (c : cfg) (e : ep),
     e_fst e = Finished ->
@@ -127,7 +139,7 @@ Theorem C17hs13_nst_timer_step :
   forall (c : cfg) (e : ep),
     e_fst e = Finished -> e_nst e <> [] ->
     let e' := fst (on_timer c e) in
-    e_nsti e' = (if c_backoff c then cap60 (2 * e_nsti e) else e_nsti e) /\
+    e_nsti e' = bump c (e_nsti e) /\
     e_nstt e' = e_nstt e + e_nsti e' /\ e_nst e' = e_nst e /\ snd (on_timer c e) = pack c (e_nst e).
 Proof. exact nst_timer_step. Qed.
 Print Assumptions C17hs13_nst_timer_step.
